@@ -1,5 +1,562 @@
+// Oracles C01..C20 evaluated over the recorded history of one finished run.
+// Every oracle states an implication of the property; none demands more than the
+// property says (DESIGN.md 5.0).
 #include "run.hpp"
+
+#include <boost/asio/error.hpp>
+#include <algorithm>
+#include <cstdio>
+#include <set>
+#include <sstream>
+
 namespace app {
-std::vector<Violation> check_all(Sim& s, const std::string& only) { (void)s; (void)only; return {}; }
-std::map<std::string, uint64_t> run_features(Sim& s) { (void)s; return {}; }
+
+using namespace mq;
+using sim::SEC; using sim::MS;
+namespace asio = boost::asio;
+
+namespace {
+
+struct Ctx {
+    Sim& s;
+    std::vector<Violation> out;
+    std::string only;
+    bool hostile_run;
+
+    std::map<int, int> pub_op_by_step, sub_op_by_step, unsub_op_by_step;   // tag -> op id
+    std::map<int, std::vector<int>> pub_receipts;      // op -> RecvPkt idx (PUBLISH)
+    std::map<int, std::vector<int>> sub_receipts, unsub_receipts;
+    std::vector<std::vector<int>> recv_by_conn;
+
+    explicit Ctx(Sim& sim, const std::string& o) : s(sim), only(o), hostile_run(sim.plan.knobs.profile == "hostile") {
+        for (auto& op : s.ops) {
+            if (op.kind == OpKind::publish) pub_op_by_step[op.step_id] = op.id;
+            if (op.kind == OpKind::subscribe) sub_op_by_step[op.step_id] = op.id;
+            if (op.kind == OpKind::unsubscribe) unsub_op_by_step[op.step_id] = op.id;
+        }
+        recv_by_conn.resize(s.net.conns.size());
+        for (auto& r : s.broker.recv) {
+            if (r.conn >= 0 && r.conn < (int)recv_by_conn.size()) recv_by_conn[r.conn].push_back(r.idx);
+            if (!r.decode_err.empty()) continue;
+            if (r.pkt.type == PUBLISH) { int op = op_of_topic(r.pkt.topic); if (op >= 0) pub_receipts[op].push_back(r.idx); }
+            if (r.pkt.type == SUBSCRIBE && !r.pkt.subs.empty()) { int op = op_of_filter(r.pkt.subs[0].filter, sub_op_by_step); if (op >= 0) sub_receipts[op].push_back(r.idx); }
+            if (r.pkt.type == UNSUBSCRIBE && !r.pkt.unsubs.empty()) { int op = op_of_unsub(r.pkt.unsubs[0]); if (op >= 0) unsub_receipts[op].push_back(r.idx); }
+        }
+    }
+
+    bool want(const char* prop) const { return only.empty() || only == "all" || only == prop; }
+
+    void fail(const char* prop, const char* oracle, const std::string& detail) {
+        if (!want(prop)) return;
+        for (auto& v : out) if (v.prop == prop && v.oracle == oracle) return;   // one per class per run
+        out.push_back(Violation{prop, oracle, detail});
+    }
+
+    int op_of_topic(const std::string& t) const {
+        if (t.rfind("t/", 0) != 0) return -1;
+        int id = atoi(t.c_str() + 2);
+        auto it = pub_op_by_step.find(id);
+        return it == pub_op_by_step.end() ? -1 : it->second;
+    }
+    static int tag_of_filter(const std::string& f) {
+        size_t p = f.find("f/");
+        if (p == std::string::npos) return -1;
+        return atoi(f.c_str() + p + 2);
+    }
+    int op_of_filter(const std::string& f, const std::map<int, int>& m) const {
+        int id = tag_of_filter(f);
+        auto it = m.find(id);
+        return it == m.end() ? -1 : it->second;
+    }
+    int op_of_unsub(const std::string& f) const {
+        size_t p = f.rfind("/u");
+        if (p == std::string::npos) return -1;
+        int id = atoi(f.c_str() + p + 2);
+        auto it = unsub_op_by_step.find(id);
+        return it == unsub_op_by_step.end() ? -1 : it->second;
+    }
+
+    const Done* done(const OpRec& o) const { return o.dones.empty() ? nullptr : &o.dones[0]; }
+
+    // is a completion with operation_aborted justified by something the caller did?
+    bool abort_justified(const OpRec& o, uint64_t upto) const {
+        if (o.caller_cancelled && o.cancel_seq <= upto) return true;
+        if (!o.client_running) return true;     // initiated on a service that was not running
+        for (auto& m : s.marks) {
+            if (m.seq > upto) break;
+            switch (m.kind) {
+            case MarkKind::cancel_client: case MarkKind::disconnect_init:
+                if (m.svc_gen == o.svc_gen) return true;
+                break;
+            case MarkKind::destroy:
+                if (m.client_gen == o.client_gen) return true;
+                break;
+            case MarkKind::op_cancel:
+                if (m.arg == 1 && m.svc_gen == o.svc_gen) return true;    // terminal cancellation cancels the service
+                break;
+            default: break;
+            }
+        }
+        return false;
+    }
+
+    bool is_transport_ec(const error_code& ec) const {
+        if (!ec) return false;
+        std::string cat = ec.category().name();
+        return cat != "mqtt_client_error";
+    }
+
+    std::string opstr(const OpRec& o) const {
+        std::ostringstream ss;
+        const char* k[] = {"run", "publish", "subscribe", "unsubscribe", "receive", "disconnect"};
+        ss << "op#" << o.id << "(" << k[(int)o.kind];
+        if (o.kind == OpKind::publish) ss << " q" << o.qos << " step " << o.step_id;
+        ss << " init@" << o.init_seq << ")";
+        return ss.str();
+    }
+
+    bool conn_hostile(int conn) const { auto* c = s.broker.bc(conn); return c && c->hostile_touched; }
+    bool any_hostile_between(uint64_t a, uint64_t b) const {
+        for (auto& sp : s.broker.sent) if (sp.hostile && sp.seq >= a && sp.seq <= b) return true;
+        return false;
+    }
+
+    // ------------------------------------------------------------------ C05
+    void c05() {
+        for (auto& o : s.ops) {
+            if (o.dones.size() > 1)
+                fail("C05", "completed_twice", opstr(o) + " completion handler invoked " + std::to_string(o.dones.size()) + " times");
+            for (auto& d : o.dones)
+                if (d.inside_init) fail("C05", "reentrant_completion", opstr(o) + " handler invoked from inside the initiating call");
+        }
+        if (s.budget_exhausted || s.livelock) return;
+        if (s.teardown_done) {
+            for (auto& o : s.ops)
+                if (o.dones.empty())
+                    fail("C05", "never_completed", opstr(o) + " never completed although the client was cancelled and destroyed and the context drained");
+            if (s.resolver_pending_at_teardown == 0 && s.teardown_time_advance != 0)
+                fail("C05", "drain_needs_time", "draining after cancel() advanced virtual time by " + std::to_string(s.teardown_time_advance) + " ns");
+            if (!s.out_of_work_after_cancel)
+                fail("C05", "work_left_after_cancel", "io_context still has outstanding work after cancel() and a full drain (leaked handler, timer or work guard)");
+            if (!s.out_of_work_after_destroy)
+                fail("C05", "work_left_after_destroy", "io_context still has outstanding work after destruction and a full drain");
+        }
+        // explicit cancel()/finished async_disconnect in the plan: everything outstanding completes, at that instant
+        for (auto& m : s.marks) {
+            if (m.kind != MarkKind::cancel_client && m.kind != MarkKind::disconnect_init) continue;
+            ns_t limit_t = m.t; uint64_t limit_seq = UINT64_MAX;
+            const OpRec* disc = nullptr;
+            if (m.kind == MarkKind::disconnect_init) {
+                disc = &s.ops[m.op];
+                if (disc->dones.empty()) continue;     // judged by never_completed / C09
+                limit_t = disc->dones[0].t;
+            }
+            // slack: stalls injected after the mark, and an uncancellable resolve in progress
+            ns_t slack = 0;
+            for (auto& k : s.marks) if (k.kind == MarkKind::stall && k.seq > m.seq) slack += k.arg;
+            bool resolve_pending = false;
+            uint64_t win_end = disc ? disc->dones[0].seq : m.seq;
+            for (auto& r : s.resolver.log) if (r.seq < win_end && (r.seq_done == 0 || r.seq_done > m.seq)) resolve_pending = true;
+            for (auto& o : s.ops) {
+                if (o.svc_gen != m.svc_gen || o.init_seq > m.seq) continue;
+                if (&o == disc) continue;
+                const Done* d = done(o);
+                if (d && d->seq < m.seq) continue;           // already complete
+                if (!d) continue;                             // never_completed covers it
+                if (resolve_pending) continue;     // a running resolve cannot be cancelled (real resolver likewise); whatever waits behind it is late
+                if (d->t > limit_t + slack) {
+                    fail("C05", m.kind == MarkKind::cancel_client ? "cancel_not_prompt" : "disconnect_leaves_ops",
+                         opstr(o) + " outstanding at " + (m.kind == MarkKind::cancel_client ? "cancel()" : "async_disconnect") + " (t=" +
+                         std::to_string(m.t) + ") completed only at t=" + std::to_string(d->t) + " limit " + std::to_string(limit_t));
+                }
+                (void)limit_seq;
+                if (d->c.ec && d->c.ec != asio::error::operation_aborted && is_transport_ec(d->c.ec))
+                    fail("C05", "cancel_wrong_code", opstr(o) + " completed with " + d->c.ec.message() + " after cancel");
+            }
+        }
+    }
+
+    // ------------------------------------------------------------------ C02
+    void c02() {
+        for (auto& o : s.ops) {
+            bool tracked = (o.kind == OpKind::publish && o.qos > 0) || o.kind == OpKind::subscribe || o.kind == OpKind::unsubscribe;
+            if (!tracked) continue;
+            const Done* d = done(o);
+            if (d && d->c.ec) {
+                if (d->c.ec == asio::error::operation_aborted) {
+                    if (!abort_justified(o, d->seq))
+                        fail("C02", "aborted_without_cancel", opstr(o) + " completed with operation_aborted although nobody cancelled it");
+                } else if (is_transport_ec(d->c.ec)) {
+                    fail("C02", "transport_error_surfaced", opstr(o) + " completed with " + d->c.ec.category().name() + ":" +
+                         std::to_string(d->c.ec.value()) + " (" + d->c.ec.message() + ")");
+                }
+            }
+        }
+        if (s.budget_exhausted || s.livelock || !s.plan.knobs.final_heal) return;
+        // (b) bounded liveness in the healed suffix
+        int final_gen = -1; bool running_at_end = false;
+        for (auto& o : s.ops) if (o.kind == OpKind::run) {
+            const Done* d = done(o);
+            if (o.init_seq < s.suffix_end_seq && (!d || d->seq > s.suffix_end_seq)) { running_at_end = true; final_gen = o.svc_gen; }
+        }
+        if (running_at_end) {
+            for (auto& m : s.marks)
+                if (m.seq < s.suffix_end_seq && m.svc_gen == final_gen &&
+                    (m.kind == MarkKind::cancel_client || m.kind == MarkKind::disconnect_init || (m.kind == MarkKind::op_cancel && m.arg == 1)))
+                    running_at_end = false;
+        }
+        if (running_at_end) {
+            for (auto& o : s.ops) {
+                bool tracked = (o.kind == OpKind::publish && o.qos > 0) || o.kind == OpKind::subscribe || o.kind == OpKind::unsubscribe;
+                if (!tracked || o.svc_gen != final_gen || o.caller_cancelled || !o.client_running) continue;
+                if (o.init_seq > s.suffix_end_seq) continue;
+                const Done* d = done(o);
+                if (!d || d->seq > s.suffix_end_seq)
+                    fail("C02", "not_completed_after_heal", opstr(o) + " still outstanding " + std::to_string((s.suffix_end_t - s.heal_t) / SEC) +
+                         " s after the last fault (heal at t=" + std::to_string(s.heal_t / 1000000) + " ms)");
+            }
+        }
+        // (c) same packet identifier on every transmission (PUBLISH: see also C03)
+        auto same_pid = [&](const std::map<int, std::vector<int>>& m, const char* what) {
+            for (auto& [op, rs] : m) {
+                std::set<uint16_t> pids;
+                for (int ri : rs) pids.insert(s.broker.recv[ri].pkt.pid);
+                if (pids.size() > 1)
+                    fail("C02", "retransmitted_with_other_pid", opstr(s.ops[op]) + " " + what + " transmitted with " + std::to_string(pids.size()) + " different packet identifiers");
+            }
+        };
+        same_pid(sub_receipts, "SUBSCRIBE"); same_pid(unsub_receipts, "UNSUBSCRIBE");
+        {
+            std::map<int, std::vector<int>> q;
+            for (auto& [op, rs] : pub_receipts) if (s.ops[op].qos > 0) q[op] = rs;
+            same_pid(q, "PUBLISH");
+        }
+        // retransmission on the next connection after the heal
+        if (s.healed) {
+            auto check_resend = [&](const std::map<int, std::vector<int>>& m, uint8_t type) {
+                for (auto& [opid, rs] : m) {
+                    auto& o = s.ops[opid];
+                    if (o.caller_cancelled || (o.kind == OpKind::publish && o.qos == 0)) continue;
+                    const Done* d = done(o);
+                    if (!d || d->c.ec) continue;
+                    if (d->seq < s.heal_seq) continue;
+                    int first_conn = s.broker.recv[rs.front()].conn;
+                    // connection on which it completed: the last receipt's (or a PUBREL's)
+                    for (size_t ci = first_conn + 1; ci < s.net.conns.size(); ++ci) {
+                        auto& nc = *s.net.conns[ci];
+                        auto* bc = s.broker.bc((int)ci);
+                        if (!bc || bc->connack_sent_idx < 0) continue;
+                        if (nc.seq_established < s.heal_seq) continue;                 // only fault-free connections are judged
+                        auto& ca = s.broker.sent[bc->connack_sent_idx];
+                        if (!ca.delivered_seq || ca.delivered_seq > d->seq) continue;  // op completed before this connection was up
+                        if (nc.fault_injected || bc->hostile_touched) continue;
+                        // did the client send anything after the handshake here?
+                        bool sent_any = false, present = false;
+                        for (int ri : recv_by_conn[ci]) {
+                            auto& r = s.broker.recv[ri];
+                            if (r.during_handshake || !r.decode_err.empty()) continue;
+                            if (r.seq > d->seq) break;
+                            sent_any = true;
+                            if (r.pkt.type == type && r.pkt.pid == s.broker.recv[rs.front()].pkt.pid) present = true;
+                            if (type == PUBLISH && r.pkt.type == PUBREL && r.pkt.pid == s.broker.recv[rs.front()].pkt.pid) present = true;
+                        }
+                        // completed on an earlier connection already?
+                        bool later_needed = false;
+                        for (int ri : rs) if (s.broker.recv[ri].conn >= (int)ci) later_needed = true;
+                        if (type == PUBLISH) for (int ri : recv_by_conn[ci]) if (s.broker.recv[ri].pkt.type == PUBREL && s.broker.recv[ri].pkt.pid == s.broker.recv[rs.front()].pkt.pid && s.broker.recv[ri].seq < d->seq) later_needed = true;
+                        if (sent_any && !present && later_needed == false) {
+                            // the op completed after this connection came up, yet nothing of it was sent here: only a
+                            // violation if its acknowledgement had not been delivered before this connection started
+                            bool acked_before = false;
+                            for (auto& sp : s.broker.sent)
+                                if (sp.reply_to >= 0 && std::find(rs.begin(), rs.end(), sp.reply_to) != rs.end() && sp.delivered_seq && sp.delivered_seq < nc.seq_established &&
+                                    (sp.pkt.type == PUBACK || sp.pkt.type == PUBCOMP || sp.pkt.type == SUBACK || sp.pkt.type == UNSUBACK)) acked_before = true;
+                            if (!acked_before)
+                                fail("C02", "not_retransmitted_on_next_connection", opstr(o) + " had no delivered acknowledgement, connection " + std::to_string(ci) +
+                                     " (after heal) carried client traffic but not this packet");
+                        }
+                    }
+                }
+            };
+            check_resend(pub_receipts, PUBLISH); check_resend(sub_receipts, SUBSCRIBE); check_resend(unsub_receipts, UNSUBSCRIBE);
+        }
+    }
+
+    // ------------------------------------------------------------------ C01
+    bool pub_matches(const OpRec& o, const Packet& p) const {
+        return p.topic == o.topic && p.payload == o.payload && p.qos == o.qos && p.retain == o.retain && props_equal(p.props, o.props);
+    }
+
+    void c01() {
+        for (auto& o : s.ops) {
+            if (o.kind != OpKind::publish || o.qos == 0) continue;
+            const Done* d = done(o);
+            if (!d || d->c.ec) continue;
+            if (hostile_run && any_hostile_between(o.init_seq, d->seq)) continue;    // judged by C19
+            auto it = pub_receipts.find(o.id);
+            std::string why = "no PUBLISH with this topic was ever received by the broker";
+            bool ok = false;
+            if (it != pub_receipts.end()) {
+                why = "";
+                for (int ri : it->second) {
+                    auto& r = s.broker.recv[ri];
+                    if (r.seq > d->seq) break;
+                    if (!pub_matches(o, r.pkt)) { if (why.empty()) why = "received PUBLISH differs from the arguments: " + packet_str(r.pkt); continue; }
+                    for (auto& sp : s.broker.sent) {
+                        if (sp.conn != r.conn || sp.hostile || sp.pkt.pid != r.pkt.pid || sp.seq < r.seq) continue;
+                        if (!sp.delivered_seq || sp.delivered_seq > d->seq) continue;
+                        if (o.qos == 1 && sp.pkt.type == PUBACK) {
+                            if (sp.pkt.rc == d->c.rc && props_equal(sp.pkt.props, d->c.props)) ok = true;
+                            else why = "PUBACK rc/props " + std::to_string(sp.pkt.rc) + props_str(sp.pkt.props) + " != handler " + std::to_string(d->c.rc) + props_str(d->c.props);
+                        }
+                        if (o.qos == 2 && sp.pkt.type == PUBREC && sp.pkt.rc >= 0x80) {
+                            if (sp.pkt.rc == d->c.rc) ok = true;
+                            else why = "failing PUBREC rc " + std::to_string(sp.pkt.rc) + " != handler rc " + std::to_string(d->c.rc);
+                        }
+                        if (o.qos == 2 && sp.pkt.type == PUBREC && sp.pkt.rc < 0x80) {
+                            // PUBREL with that id received afterwards (same or later connection), PUBCOMP on the PUBREL's connection
+                            for (auto& r2 : s.broker.recv) {
+                                if (r2.seq < sp.delivered_seq || r2.seq > d->seq || !r2.decode_err.empty()) continue;
+                                if (r2.pkt.type != PUBREL || r2.pkt.pid != r.pkt.pid) continue;
+                                for (auto& sc : s.broker.sent) {
+                                    if (sc.conn != r2.conn || sc.hostile || sc.pkt.type != PUBCOMP || sc.pkt.pid != r.pkt.pid || sc.seq < r2.seq) continue;
+                                    if (!sc.delivered_seq || sc.delivered_seq > d->seq) continue;
+                                    if (sc.pkt.rc == d->c.rc && props_equal(sc.pkt.props, d->c.props)) ok = true;
+                                    else why = "PUBCOMP rc/props " + std::to_string(sc.pkt.rc) + props_str(sc.pkt.props) + " != handler " + std::to_string(d->c.rc) + props_str(d->c.props);
+                                }
+                            }
+                        }
+                        if (ok) break;
+                    }
+                    if (ok) break;
+                }
+                if (!ok && why.empty()) why = "no acknowledgement for its packet identifier was delivered before the handler ran";
+            }
+            if (!ok) fail("C01", o.qos == 1 ? "qos1_success_without_witness" : "qos2_success_without_witness",
+                          opstr(o) + " completed successfully (rc " + std::to_string(d->c.rc) + ") at seq " + std::to_string(d->seq) + " but " + why);
+        }
+    }
+
+    // ------------------------------------------------------------------ C14
+    void c14() {
+        for (auto& o : s.ops) {
+            if (o.kind != OpKind::subscribe && o.kind != OpKind::unsubscribe) continue;
+            const Done* d = done(o);
+            if (!d) continue;
+            bool sub = o.kind == OpKind::subscribe;
+            size_t ntopics = sub ? o.subs.size() : o.topics.size();
+            if (d->c.rcs.size() != ntopics)
+                fail("C14", "rc_count_differs", opstr(o) + " handler got " + std::to_string(d->c.rcs.size()) + " reason codes for " + std::to_string(ntopics) + " topics");
+            if (d->c.ec) continue;
+            if (hostile_run && any_hostile_between(o.init_seq, d->seq)) continue;
+            auto& m = sub ? sub_receipts : unsub_receipts;
+            auto it = m.find(o.id);
+            bool ok = false; std::string why = "the broker never received the request";
+            if (it != m.end()) {
+                why = "";
+                for (int ri : it->second) {
+                    auto& r = s.broker.recv[ri];
+                    if (r.seq > d->seq) break;
+                    bool same = sub ? (r.pkt.subs == o.subs) : (r.pkt.unsubs == o.topics);
+                    if (!same || !props_equal(r.pkt.props, o.props)) { why = "received request differs from the arguments: " + packet_str(r.pkt); continue; }
+                    for (auto& sp : s.broker.sent) {
+                        if (sp.conn != r.conn || sp.hostile || sp.pkt.pid != r.pkt.pid || sp.seq < r.seq) continue;
+                        if (sp.pkt.type != (sub ? SUBACK : UNSUBACK)) continue;
+                        if (!sp.delivered_seq || sp.delivered_seq > d->seq) continue;
+                        if (sp.pkt.rcs == d->c.rcs && props_equal(sp.pkt.props, d->c.props)) ok = true;
+                        else why = "acknowledgement " + packet_str(sp.pkt) + " differs from what the handler got";
+                    }
+                    if (ok) break;
+                }
+                if (!ok && why.empty()) why = "no acknowledgement for its packet identifier was delivered before the handler ran";
+            }
+            if (!ok) fail("C14", sub ? "subscribe_success_without_witness" : "unsubscribe_success_without_witness",
+                          opstr(o) + " completed successfully at seq " + std::to_string(d->seq) + " but " + why);
+        }
+    }
+
+    // ------------------------------------------------------------------ C03
+    void c03() {
+        for (auto& [opid, rs] : pub_receipts) {
+            auto& o = s.ops[opid];
+            if (o.qos == 0 || rs.empty()) continue;
+            const Done* d = done(o);
+            uint64_t end_seq = d ? d->seq : UINT64_MAX;
+            auto& first = s.broker.recv[rs.front()];
+            uint16_t pid = first.pkt.pid;
+            // (1) QoS 2: no PUBLISH after the first PUBREL of this exchange
+            if (o.qos == 2) {
+                uint64_t first_rel = 0;
+                for (auto& r : s.broker.recv)
+                    if (r.decode_err.empty() && r.pkt.type == PUBREL && r.pkt.pid == pid && r.seq > first.seq && r.seq < end_seq) { first_rel = r.seq; break; }
+                if (first_rel)
+                    for (int ri : rs) if (s.broker.recv[ri].seq > first_rel && s.broker.recv[ri].seq < end_seq)
+                        fail("C03", "publish_after_pubrel", opstr(o) + " PUBLISH (pid " + std::to_string(pid) + ") transmitted again at seq " +
+                             std::to_string(s.broker.recv[ri].seq) + " after its PUBREL at seq " + std::to_string(first_rel));
+            }
+            // (2) byte-identical except DUP
+            for (int ri : rs) {
+                std::string a = first.pkt.raw, b = s.broker.recv[ri].pkt.raw;
+                if (!a.empty() && !b.empty()) { a[0] &= ~0x08; b[0] &= ~0x08; }
+                if (a != b) fail("C03", "retransmission_differs", opstr(o) + " retransmission differs from the first transmission beyond the DUP bit: " +
+                                 hex(first.pkt.raw, 40) + " vs " + hex(s.broker.recv[ri].pkt.raw, 40));
+            }
+            // (3) first transmission DUP=0 (if nothing could have been sent earlier)
+            if (first.pkt.dup) {
+                bool earlier_conn_possible = false;
+                for (int ci = 0; ci < first.conn; ++ci) {
+                    auto& nc = *s.net.conns[ci];
+                    if (nc.st == sim::Conn::failed) continue;
+                    if (nc.seq_end == 0 || nc.seq_end > o.init_seq) earlier_conn_possible = true;
+                }
+                // bytes lost in flight on the same connection never happen (TCP), so DUP on the first receipt needs an earlier connection
+                if (!earlier_conn_possible)
+                    fail("C03", "first_transmission_dup", opstr(o) + " first transmission carries DUP=1 (conn " + std::to_string(first.conn) + ")");
+            }
+            // (4) DUP=1 when an earlier transmission was reported as written successfully
+            for (size_t k = 1; k < rs.size(); ++k) {
+                auto& r = s.broker.recv[rs[k]];
+                if (r.pkt.dup) continue;
+                for (size_t j = 0; j < k; ++j) {
+                    auto& e = s.broker.recv[rs[j]];
+                    if (!e.group || e.group != e.first_group) continue;
+                    auto& g = s.net.groups[e.group - 1];
+                    if (g.done && !g.result && g.seq_done < r.seq)
+                        fail("C03", "dup_missing", opstr(o) + " retransmitted at seq " + std::to_string(r.seq) + " with DUP=0 although the write carrying an earlier transmission (seq " +
+                             std::to_string(e.seq) + ") was reported successful");
+                }
+            }
+        }
+    }
+
+    // ------------------------------------------------------------------ C06
+    void c06() {
+        for (size_t ci = 0; ci < recv_by_conn.size(); ++ci) {
+            auto* bc = s.broker.bc((int)ci);
+            if (!bc || bc->connack_sent_idx < 0) continue;
+            bool all = !bc->caps.recv_max.has_value();
+            int last = -1; uint64_t last_seq = 0;
+            for (int ri : recv_by_conn[ci]) {
+                auto& r = s.broker.recv[ri];
+                if (!r.decode_err.empty() || r.pkt.type != PUBLISH) continue;
+                if (!all && r.pkt.qos == 0) continue;
+                int op = op_of_topic(r.pkt.topic);
+                if (op < 0) continue;
+                if (s.ops[op].caller_cancelled) continue;
+                if (op < last)
+                    fail("C06", all ? "order_any_qos" : "order_qos_gt0", "connection " + std::to_string(ci) + ": PUBLISH of " + opstr(s.ops[op]) + " (seq " + std::to_string(r.seq) +
+                         ") arrived after PUBLISH of later-initiated " + opstr(s.ops[last]) + " (seq " + std::to_string(last_seq) + ")");
+                if (op > last) { last = op; last_seq = r.seq; }
+            }
+        }
+    }
+
+    // ------------------------------------------------------------------ C07 / online broker observations
+    void online() {
+        for (auto& v : s.broker.violations_online) {
+            auto p1 = v.find('|');
+            if (p1 == std::string::npos) { fail("C17", "framing", v); continue; }
+            auto p2 = v.find('|', p1 + 1);
+            std::string prop = v.substr(0, p1), orc = v.substr(p1 + 1, p2 - p1 - 1), det = v.substr(p2 + 1);
+            if (hostile_run && prop == "C04") continue;
+            fail(prop.c_str(), orc.c_str(), det);
+        }
+    }
+
+    // ------------------------------------------------------------------ C08
+    void c08() {
+        struct Hold { int op; uint64_t from; };
+        std::map<uint16_t, std::vector<Hold>> holders;
+        auto opdone = [&](int op) -> uint64_t { auto& o = s.ops[op]; return o.dones.empty() ? UINT64_MAX : o.dones[0].seq; };
+        for (auto& r : s.broker.recv) {
+            if (!r.decode_err.empty()) continue;
+            int op = -1;
+            if (r.pkt.type == PUBLISH && r.pkt.qos > 0) op = op_of_topic(r.pkt.topic);
+            else if (r.pkt.type == SUBSCRIBE && !r.pkt.subs.empty()) op = op_of_filter(r.pkt.subs[0].filter, sub_op_by_step);
+            else if (r.pkt.type == UNSUBSCRIBE && !r.pkt.unsubs.empty()) op = op_of_unsub(r.pkt.unsubs[0]);
+            else continue;
+            if (op < 0) continue;
+            if (r.pkt.pid == 0) fail("C08", "pid_zero", opstr(s.ops[op]) + " sent with packet identifier 0");
+            auto& hs = holders[r.pkt.pid];
+            for (auto& h : hs) {
+                if (h.op == op) continue;
+                if (s.ops[h.op].svc_gen != s.ops[op].svc_gen) continue;   // cancel() starts a fresh service with its own identifiers
+                if (opdone(h.op) > r.seq && s.ops[h.op].init_seq < r.seq)
+                    fail("C08", "pid_shared", "packet identifier " + std::to_string(r.pkt.pid) + " used by " + opstr(s.ops[op]) + " at seq " + std::to_string(r.seq) +
+                         " while " + opstr(s.ops[h.op]) + " (not yet completed) holds it since seq " + std::to_string(h.from));
+            }
+            bool have = false; for (auto& h : hs) if (h.op == op) have = true;
+            if (!have) hs.push_back({op, r.seq});
+        }
+        // pid_overrun only when all 65535 identifiers are in use
+        for (auto& o : s.ops) {
+            const Done* d = done(o);
+            if (!d || d->c.ec.value() != 103 || std::string(d->c.ec.category().name()) != "mqtt_client_error") continue;
+            size_t outstanding = 0;
+            for (auto& p : s.ops) {
+                if (p.client_gen != o.client_gen || p.svc_gen != o.svc_gen || p.id == o.id) continue;
+                bool holds = (p.kind == OpKind::publish && p.qos > 0) || p.kind == OpKind::subscribe || p.kind == OpKind::unsubscribe;
+                if (!holds || p.init_seq > o.init_seq) continue;
+                if (p.dones.empty() || p.dones[0].seq > o.init_seq) ++outstanding;
+            }
+            if (outstanding < 65535)
+                fail("C08", "pid_overrun_early", opstr(o) + " completed with pid_overrun while only " + std::to_string(outstanding) + " exchanges were outstanding");
+        }
+    }
+
+    // ------------------------------------------------------------------ C17 (wire well-formedness + says what was asked)
+    void c17() {
+        for (auto& r : s.broker.recv) {
+            if (!r.decode_err.empty()) {
+                fail("C17", "malformed_packet_emitted", "conn " + std::to_string(r.conn) + " seq " + std::to_string(r.seq) + ": " + r.decode_err + " raw " + hex(r.pkt.raw, 64));
+                continue;
+            }
+            const Packet& p = r.pkt;
+            if (p.type == PUBLISH) {
+                int op = op_of_topic(p.topic);
+                if (op >= 0 && !pub_matches(s.ops[op], p))
+                    fail("C17", "publish_fields_differ", opstr(s.ops[op]) + " emitted as " + packet_str(p) + " but asked topic/payload/qos/retain/props " +
+                         s.ops[op].topic + " q" + std::to_string(s.ops[op].qos) + " " + props_str(s.ops[op].props));
+                if (op < 0 && p.topic.rfind("t/", 0) == 0) fail("C17", "unknown_publish", "PUBLISH with unknown tag " + p.topic);
+            } else if (p.type == SUBSCRIBE) {
+                int op = p.subs.empty() ? -1 : op_of_filter(p.subs[0].filter, sub_op_by_step);
+                if (op >= 0 && (!(p.subs == s.ops[op].subs) || !props_equal(p.props, s.ops[op].props)))
+                    fail("C17", "subscribe_fields_differ", opstr(s.ops[op]) + " emitted as " + packet_str(p));
+            } else if (p.type == UNSUBSCRIBE) {
+                int op = p.unsubs.empty() ? -1 : op_of_unsub(p.unsubs[0]);
+                if (op >= 0 && (!(p.unsubs == s.ops[op].topics) || !props_equal(p.props, s.ops[op].props)))
+                    fail("C17", "unsubscribe_fields_differ", opstr(s.ops[op]) + " emitted as " + packet_str(p));
+            }
+        }
+    }
+};
+
+} // namespace
+
+std::vector<Violation> check_all(Sim& s, const std::string& only) {
+    Ctx c(s, only);
+    c.online();
+    c.c05(); c.c02(); c.c01(); c.c14(); c.c03(); c.c06(); c.c08(); c.c17();
+    if (s.livelock) c.fail("C19", "livelock", "more than 200000 handler steps at one virtual instant");
+    return c.out;
 }
+
+std::map<std::string, uint64_t> run_features(Sim& s) {
+    std::map<std::string, uint64_t> f;
+    size_t est = 0; for (auto& c : s.net.conns) if (c->st != sim::Conn::failed && c->seq_established) ++est;
+    f["conns_established"] = est;
+    f["reconnects"] = est > 1 ? est - 1 : 0;
+    size_t done_ok = 0, done_abort = 0;
+    for (auto& o : s.ops) for (auto& d : o.dones) { if (!d.c.ec) ++done_ok; else if (d.c.ec == asio::error::operation_aborted) ++done_abort; }
+    f["ops_success"] = done_ok; f["ops_aborted"] = done_abort;
+    size_t dup = 0, q2 = 0;
+    for (auto& r : s.broker.recv) { if (r.pkt.type == PUBLISH && r.pkt.dup) ++dup; if (r.pkt.type == PUBREL) ++q2; }
+    f["dup_publishes"] = dup; f["pubrels"] = q2;
+    size_t maxinf = 0; bool hit_limit = false;
+    for (auto& c : s.broker.conns) if (c) { maxinf = std::max(maxinf, c->max_inflight); if (c->caps.recv_max && c->max_inflight >= *c->caps.recv_max) hit_limit = true; }
+    f["max_inflight"] = maxinf; f["recv_max_reached"] = hit_limit;
+    f["pkts_from_client"] = s.broker.recv.size(); f["pkts_to_client"] = s.broker.sent.size();
+    return f;
+}
+
+} // namespace app
